@@ -451,6 +451,10 @@ def check(run, fx, tier, floors=True):
         t07_sent(run, fx)
     if floors or fx.body("subset::create_hmtx_table") is not None:
         t07_hmtx(run, fx)
+    if floors:
+        # a subset or instanced CFF font starts with the header the writer emits: its announced size must be the size written (shared with C15)
+        import rules_C15
+        rules_C15.c15_s(run, fx, floors)
     t07_id(run, fx, floors)
     t07_map(run, fx)
     if floors or fx.body("tables::glyf::GlyfRecord::<'a>::is_composite") is not None:
